@@ -770,6 +770,18 @@ fn run_decode_walk(ops: &[Op]) {
 // name; a closure (nested `depth` times) in the loop body reads the name; it must see what the loop body sees.
 fn run_closure_capture(ops: &[Op]) {
     let last = ops.len() - 1;
+    if ops[0].0 % 4 == 3 && ops[0].1 % 2 == 1 {
+        // a function with more locals than a locals table holds: an error, never a panic
+        let n = 250 + (ops[0].2.unsigned_abs() % 12) as usize;
+        let cards: Vec<Card> = (0..n).map(|k| Card::set_var(format!("v{k}"), Card::scalar_int(k as i64))).collect();
+        let module = Module { functions: vec![("main".to_string(), Function::default().with_cards(cards))], ..Default::default() };
+        let hook = std::panic::take_hook();
+        std::panic::set_hook(Box::new(|_| {}));
+        let r = std::panic::catch_unwind(|| compile(module, None).map(|_| ()));
+        std::panic::set_hook(hook);
+        if r.is_err() { fail("closure_capture", ops, last, format!("compile() panicked on a function with {n} local variables (expected a program or a compilation error)")); }
+        return;
+    }
     if ops[0].0 % 4 == 3 {
         // a closure nested in a closure that names more variables than an upvalue table holds: an error, never a panic
         let (n_outer, n_mid) = (150 + (ops[0].1 % 100) as usize, 60 + (ops[0].2.unsigned_abs() % 60) as usize);
@@ -867,13 +879,17 @@ fn run_gc_roots(ops: &[Op]) {
     }
     let allocs = 500 + (ops[0].1 % 8) as i64 * 500;
     let limit = [32usize, 48, 64, 96][(ops[0].2.unsigned_abs() % 4) as usize] * 1024;
+    // the garbage is produced either by the closure itself or by a function it calls (then the closure's frame is not the
+    // innermost one when the collector runs)
+    let nested = (ops[0].1 / 8) % 2 == 1;
+    let churn = Card::repeat(Card::scalar_int(allocs), None, Card::set_var("t", CardBody::CreateTable));
     let body = vec![
-        Card::repeat(Card::scalar_int(allocs), None, Card::set_var("t", CardBody::CreateTable)),
+        if nested { Card::call_function("churn", vec![]) } else { churn.clone() },
         Card::set_global_var("g", Card::read_var("x")),
     ];
     let closure: Card = CardBody::Closure(Box::new(Function::default().with_cards(body))).into();
     let cards = vec![Card::set_var("x", Card::scalar_int(42)), Card::dynamic_call(closure, vec![])];
-    let module = Module { functions: vec![("main".to_string(), Function::default().with_cards(cards))], ..Default::default() };
+    let module = Module { functions: vec![("main".to_string(), Function::default().with_cards(cards)), ("churn".to_string(), Function::default().with_cards(vec![churn]))], ..Default::default() };
     let program = compile(module, None).unwrap();
     let mut vm = Vm::new(()).unwrap().with_max_iter(50_000_000);
     vm.runtime_data.set_memory_limit(limit);
